@@ -313,6 +313,12 @@ def run(task, ctx):
                 'class_id': class_id, 'weight': weight})
             check_frame(ctx, data, 'header class=%d weight=%d extra=%d' % (
                 class_id, weight, extra))
+        # every body size of the alphabet (unsigned 64 bit on the wire)
+        for size in A.BODY_SIZE + [2**63 + 1, 2**64 - 2, 2**32 + 1]:
+            for props in ({}, {'priority': 1}):
+                data, _f = refcodec.enc_header_frame(size, props, 9)
+                ctx.case(('f', data), True)
+                check_frame(ctx, data, 'body size %d' % size)
         # continuation flag word followed by an empty word
         for props in ({}, {'content_type': 'a'}, full):
             data, fields = refcodec.enc_header_frame(5, props, 2)
